@@ -104,6 +104,17 @@ PROPS = {
         'level_text': 'Verus proves on the real bodies: PublicKey::from_bytes accepts exactly SEC1 encodings of non-identity curve points and keeps the bytes; compress / decompress return the same point in the other form and never panic; the public key and point of a private key use its compression flag; address = prefix ++ hash160(encoded key) ++ first 4 bytes of sha256d(prefix ++ hash); to_string is Base58 of exactly those 25 bytes (checksum recomputed); from_string accepts exactly 25 decoded bytes with a matching checksum whatever the text length and returns those fields; set_chain_params re-prefixes and re-checksums; the unlocking script is refused unless hash160(key) equals the address hash, whatever the prefix; from_wif enforces the 4-byte checksum, decodes prefix / key / compression suffix by position, accepts only a valid scalar and never indexes out of range.',
         'level_note': TB + ' Curve arithmetic, Base58 and hex codecs are assumed.',
     },
+    'C05': {
+        'units': {
+            'ecdsa_glue': ['*'],
+            'hash_glue': ['get_hash_digest', 'FixedOutput for Sha256r::*', 'Update for Sha256r::*', 'ReversibleDigest for Sha256r::*'],
+        },
+        'assumptions': ['k256 / ecdsa crates: try_sign_prehashed (incl. low-S normalisation), rfc6979_generate_k, verify_prehashed / verify_digest, scalar reduction and ECDH are uninterpreted functions; that rfc6979_generate_k equals RFC 6979 bit for bit, that no produced s exceeds n/2, and that verification FAILS for other messages / keys are inside the dependencies and NOT decided by this technique',
+                        'axioms: verify(pub(d), z, sign(d, k, z)); ECDH commutes', SHA],
+        'design_ref': 'DESIGN.md section 4 C05',
+        'level_text': 'Composition only: Verus proves on the real signer / verifier bodies that every signing entry point (deterministic nonce in both nonce byte orders, caller nonce, random nonce, pre-hashed digest) returns ecdsa_sign(d, k, z) with z = big-endian reduction of the selected digest (SHA-256 or double SHA-256 of the message) - the same z both verifiers use - that the deterministic nonce is rfc6979_k over the stated hash with the stated byte order, that the recovery info carries the key compression flag, that verification accepts exactly when ecdsa_verify holds and never returns Ok(false); with the ECDSA axiom every produced signature verifies under the signer key. ECDH returns the x coordinate of d*Q and is symmetric by the commutativity axiom.',
+        'level_note': TB + ' The elliptic-curve primitives are assumed, not verified.',
+    },
     'C04': {
         'units': {
             'tx_cache': ['*'],
@@ -118,7 +129,6 @@ PROPS = {
 }
 
 NOT_CLAIMED = {
-    'C05': 'not reached yet',
     'C08': 'not reached yet',
     'C09': 'not reached yet',
     'C11': 'not reached yet',
